@@ -1,5 +1,5 @@
 """C14 — AVX512 dot/sparse/dense matrix kernels equal the product mod p, for two interleaved states.
-Model: MatKernels.tla over LaneKernels.tla: (a) the arithmetic chain per lane (three lane products through two adders; the
+Model: MatKernels.tla over MatChains.tla and LaneKernels.tla, both GENERATED from the kernels of the current tree (tools/avx2tla.py): (a) the arithmetic chain per lane (three lane products through two adders; the
 8-bit variants add the low halves of the 72-bit products with the modular adder, the high parts as integers and reduce
 once; four transposed columns through two adder levels) checked by TLC at W=2 for all state lanes and boundary
 coefficients (thorough: all), (b) the register layout: permute2f128/unpack (AVX2) and permutex2var/unpack (AVX512)
@@ -30,8 +30,10 @@ def run(tier, seed, replay=None):
         open(os.path.join(wd, 'MC_MatChain_run.cfg'), 'w').write(cfg)
         r = tlc(wd, 'MC_MatChain', 'MC_MatChain_run.cfg', timeout=2400)
         ck.add_tlc(r, 'MC_MatChain W=2: spmv / spmv_8 / column-sum chains (AVX2 and AVX512), transposes as tag permutations')
+        lead = None
         if not r.ok:
-            ck.note('model-level: MC_MatChain: %s' % (r.violated or r.error))
+            ck.note('model-level lead: MC_MatChain: %s (counterexample lifted to 64 bit and replayed)' % (r.violated or r.error))
+            lead = lanelib.chain_leads(r.out)
         open(os.path.join(wd, 'MC_MatChain_L.cfg'), 'w').write(base.replace('LegacyBC = FALSE', 'LegacyBC = TRUE'))
         rl = tlc(wd, 'MC_MatChain', 'MC_MatChain_L.cfg', timeout=600, tag='legacy')
         ck.cov['legacy_switch_counterexamples'] = {'LegacyBC': rl.violated}
@@ -42,7 +44,7 @@ def run(tier, seed, replay=None):
             consts = {k: [vlib.unw64(x) for x in v] for k, v in cj.items()}
         except Exception as e:
             ck.note('library tables not available for coefficient cases: %s' % e)
-        cases = lanelib.mat_cases(lanelib.MAT512, seed, tier, consts)
+        cases = lanelib.chain_lead_cases(lanelib.MAT512, lead) + lanelib.mat_cases(lanelib.MAT512, seed, tier, consts)
     if variant == 'avx2' or vlib.have_avx512():
         lanelib.replay(ck, wd, variant, cases, 'AVX512 12-wide kernels (%d calls)' % len(cases),
                        lambda c, r: 'kernel %s state=%s coef[0..3]=%s' % (c[1], ' '.join('%x' % x for x in c[2]), ' '.join('%x' % x for x in c[3][:4])))
